@@ -36,6 +36,8 @@ func selftest(r *evid.Run) {
 		{"MC_PS", "MC_PS_mixed.cfg", "ParseAgreement"},
 		{"MC_Opt", "MC_Opt_beforefix_violates.cfg", ""}, // FamiliesAgree or OptionsMeanWhatTheySay, whichever TLC meets first
 		{"MC_Io", "MC_C14_asbuilt_retry.cfg", "ReaderErrReturned"},
+		{"MC_Pipe", "MC_Pipe_backpressure_reach.cfg", "NeverBackedUp"}, // (reachability: the backed-up state exists in the model)
+		{"MC_Pipe", "MC_Pipe_asbuilt_lastsend.cfg", "NoStuck"},
 		{"MC_Session", "MC_Session_asbuilt_PooledBuffer.cfg", "CallsAreIndependent"},
 		{"MC_Session", "MC_Session_asbuilt_SharedGrower.cfg", "CallsAreIndependent"},
 		{"MC_Session", "MC_Session_asbuilt_PooledParser.cfg", "CallsAreIndependent"},
